@@ -154,10 +154,14 @@ class SymBytes:
 class SymFile:
     """stream of symbolic length L"""
 
-    def __init__(self, L, req):
+    def __init__(self, L, req, max_reads=64):
         self.L, self.pos, self.req, self.closed = L, 0, req, False
+        self.reads, self.max_reads = 0, max_reads
 
     def read(self, n=None):
+        self.reads += 1
+        if self.reads > self.max_reads:
+            raise AssertionError("unwinding bound exceeded: %d reads of a stream of at most a few dozen bytes" % self.reads)
         rest = self.L - self.pos
         if n is None or (isinstance(n, int) and n < 0):
             k = rest
@@ -180,6 +184,18 @@ class SymFile:
 
     def close(self):
         self.closed = True
+
+
+class CountingBytesIO(io.BytesIO):
+    """real stream for the replay; a loader that keeps reading an exhausted stream is stopped (non-termination witness)"""
+
+    reads = 0
+
+    def read(self, *a):
+        self.reads += 1
+        if self.reads > 64:
+            raise AssertionError("unwinding bound exceeded: %d reads" % self.reads)
+        return io.BytesIO.read(self, *a)
 
 
 class Field:
@@ -347,7 +363,10 @@ def u_glb(ctx):
         if ctx.sym:
             def words(tag, k):
                 if k == 5:
-                    return [word("magic"), word("version"), word("length"), word("json_len"), word("json_type")]
+                    ws = [word("magic"), word("version"), word("length"), word("json_len"), word("json_type")]
+                    # the json.loads stub stands for a JSON chunk that parses ("{}" padded with blanks in the replay): at least 2 bytes
+                    ctx.assume(lib.l_and(ws[3] >= 2, ws[3] <= 16))
+                    return ws
                 reads["n"] += 1
                 req.iterations = reads["n"]
                 if reads["n"] > nchunks + 1:
@@ -386,7 +405,7 @@ def u_glb(ctx):
                     return orig_frombuffer(d, dtype=dtype, **k)
 
             gltf.np = R(req)
-            f = io.BytesIO(data)
+            f = CountingBytesIO(data)
         gltf._read_buffers = lambda **kw: {"stub": True}
         try:
             with warnings.catch_warnings():
